@@ -83,6 +83,3 @@ def run(ck, prog, ctx):
     ck.extra["methods"] = names
     ck.assume("error exits of the recursive annotation propagation after the ids were validated are infeasible for builders fed through the public API")
     ck.assume("std mutator / non-mutator tables of DESIGN 3.0")
-    if ctx["tier"] == "thorough":
-        import witness
-        witness.run(ck, "C15", ctx)
